@@ -280,13 +280,8 @@ func randSMString(r *rand.Rand) string {
 	for i := 0; i < n; i++ {
 		sb.WriteString(fw.Pick(r, pieces))
 	}
-	s := sb.String()
-	// A CR at the very end of one call followed by an LF at the start of the next is not
-	// generated: the statement does not say whether a break split across calls is one or two.
-	for strings.HasSuffix(s, "\r") {
-		s = s[:len(s)-1] + "\r\n"
-	}
-	return s
+	// chunks may end in a lone CR (and may be exactly "\r"); genSMHistory keeps an LF from directly following it
+	return sb.String()
 }
 
 func randPos(r *rand.Rand) int {
@@ -308,6 +303,10 @@ func genSMHistory(r *rand.Rand, maxLen int) []smOp {
 	// profile biases
 	pNamed := r.Float64()
 	pLine := r.Float64() * 0.4
+	// crOpen: the last position-advancing operation was a string ending in a lone CR. An LF at the start of the next
+	// advanced string would then be a line break split across two calls; the statement does not say whether that is one
+	// break or two, so it is not generated (recording a mapping in between does not advance and does not close it).
+	crOpen := false
 	for i := 0; i < n; i++ {
 		x := r.Float64()
 		switch {
@@ -319,14 +318,25 @@ func genSMHistory(r *rand.Rand, maxLen int) []smOp {
 			}
 		case x < 0.35+pLine:
 			ops = append(ops, smOp{Op: "line"})
+			crOpen = false
 		case x < 0.8:
-			ops = append(ops, smOp{Op: "col", A: r.IntN(301)})
+			c := r.IntN(301)
+			ops = append(ops, smOp{Op: "col", A: c})
+			if c > 0 {
+				crOpen = false
+			}
 		default:
 			s := randSMString(r)
-			if strings.HasPrefix(s, "\n") && len(ops) > 0 && ops[len(ops)-1].Op == "str" && strings.HasSuffix(ops[len(ops)-1].S, "\r") {
+			if r.IntN(8) == 0 {
+				s = fw.Pick(r, []string{"\r", "\n", "\r\n", "a", "", " ", "\r\r", "\n\r"}) // single-character chunks
+			}
+			if strings.HasPrefix(s, "\n") && crOpen {
 				s = "a" + s
 			}
 			ops = append(ops, smOp{Op: "str", S: s})
+			if s != "" {
+				crOpen = strings.HasSuffix(s, "\r")
+			}
 		}
 	}
 	return ops
